@@ -223,7 +223,7 @@ def run(ctx):
     wrng = ctx.subrng('warc')
     seqs = []
     for i in range(ctx.scale(250, 3000)):
-        opts = H.OPTS[(i // 2) % 4] if i % 4 >= 2 else (True, False)   # half default, half the other combinations
+        opts = H.OPTS[1 + (i // 4) % 3] if i % 4 >= 2 else (True, False)   # half default, half spread over the other three
         seqs.append((gen_exchanges(wrng, opts), opts))
     stream_warc(ctx, seqs)
 
